@@ -63,6 +63,13 @@ def cases(tier, seed):
         for vs in itertools.product(["ok", "block", "rewrite"], repeat=4):
             i += 1
             yield dict(_mk("v1", mode, 2, 1, 2, vs, exc=True, cid="x%d" % i), id=i)
+    # a rail listed twice (check, rewrite, check again): [a, b, a]
+    for mode in ("dialog", "single_call", "general", "passthrough", "multi_step"):
+        for vs in itertools.product(["ok", "block", "rewrite"], repeat=2):
+            i += 1
+            c = _mk("v1", mode, 2, 1, 1, vs, cid="r%d" % i)
+            c["spec"]["dup_in"] = [0]
+            yield dict(c, id=i)
     for k in (1, 2):
         for turns in (1, 2):
             for vs in itertools.product(["ok", "block"], repeat=k * turns):
